@@ -65,8 +65,23 @@ inductive HSt where
   | raised (e : Nat)
   deriving DecidableEq, Repr
 
+/-- how the helper was entered -/
+inductive Entry where
+  /-- `bounded_gather2(sema, …)` / `OnlineBoundedGather2(sema)` called by a coroutine that holds one permit of
+  `sema = asyncio.Semaphore(n)` (the convention `WithoutSemaphore` is written for) -/
+  | holdingPermit
+  /-- `bounded_gather(*pfs, parallelism=n)`: `bounded_gather2(asyncio.Semaphore(n), …)` — nobody holds a permit -/
+  | boundedGather
+  deriving DecidableEq, Repr
+
+/-- `sema._value` when the helper is called, for a semaphore created with `n` permits -/
+def valueAtCall (n : Nat) : Entry → Nat
+  | .holdingPermit => n - 1
+  | .boundedGather => n
+
 structure State where
   flavour : Flavour
+  entry : Entry
   /-- scripted outcomes, in submission order -/
   outs : List Outcome
   /-- task states, in submission order -/
@@ -134,45 +149,73 @@ def cancelBelow : Nat → List TSt → Nat × List TSt
 
 def cancelAll (l : List TSt) : Nat × List TSt := cancelBelow l.length l
 
-/-- the helper is called with `sema._value = v0` (the caller's own permit, if it holds one, not included) and the loop runs to
-quiescence -/
-def start (fl : Flavour) (v0 : Nat) (outs : List Outcome) : State :=
+/-- the coroutine that called the helper leaves its `async with sema:` block (releasing "its" permit) as soon as the helper has
+returned or raised; under `bounded_gather` there is no such block -/
+def leave (s : State) : State :=
+  match s.entry with
+  | .holdingPermit => let p := admit (s.free + 1) s.st; { s with st := p.2, free := p.1 }
+  | .boundedGather => s
+
+/-- the helper is called for a semaphore created with `n` permits and the loop runs to quiescence -/
+def start (fl : Flavour) (en : Entry) (n : Nat) (outs : List Outcome) : State :=
+  let v0 := valueAtCall n en
   let q := outs.map fun _ => TSt.queued
   match fl with
   | .online =>
     -- `__aenter__` releases nothing: during the body the caller keeps its permit
     let p := admit v0 q
-    ⟨fl, outs, p.2, p.1, .active, none, 0⟩
+    ⟨fl, en, outs, p.2, p.1, .active, none, 0⟩
   | _ =>
     -- `WithoutSemaphore.__aenter__`: `self._sema.release()`, then `await asyncio.gather(*tasks)`
-    if outs.isEmpty then ⟨fl, outs, [], v0, .returned [], none, 0⟩     -- `gather()` of nothing returns `[]` at once
+    if outs.isEmpty then leave ⟨fl, en, outs, [], v0, .returned [], none, 0⟩     -- `gather()` of nothing returns `[]` at once
     else
       let p := admit (v0 + 1) q
-      ⟨fl, outs, p.2, p.1, .active, none, 0⟩
+      ⟨fl, en, outs, p.2, p.1, .active, none, 0⟩
+
+/-- the body of running task `i` ends with its scripted outcome, `async with sema` releases the permit and the semaphore wakes
+the next waiter -/
+def complete (s : State) (i : Nat) (o : Outcome) : State :=
+  let p := admit (s.free + 1) (s.st.set i (.done (resOf o)))
+  { s with st := p.2, free := p.1 }
+
+/-- `task.cancel()` on the unfinished tasks among the first `j`; their permits go back to the semaphore, which admits waiters -/
+def cancelFirst (s : State) (j : Nat) : State :=
+  let c := cancelBelow j s.st
+  let p := admit (s.free + c.1) c.2
+  { s with st := p.2, free := p.1 }
+
+/-- `WithoutSemaphore.__aenter__`: `self._sema.release()` -/
+def releaseOwn (s : State) : State :=
+  let p := admit (s.free + 1) s.st
+  { s with st := p.2, free := p.1 }
+
+/-- the helper returns the results in submission order; `WithoutSemaphore.__aexit__` has re-acquired the caller's permit; the
+caller leaves its block -/
+def returnNow (s : State) : State :=
+  leave { s with helper := .returned (s.st.map slotOf), free := s.free - 1, pendingAtReturn := 0 }
+
+/-- the helper raises `e` with `pend` tasks unfinished at that instant (`reacquired`: whether a `WithoutSemaphore.__aexit__`
+took the caller's permit back first — it does not when an exception is propagating); the caller leaves its block -/
+def raiseNow (s : State) (e pend : Nat) (reacquired : Bool) : State :=
+  leave { s with helper := .raised e, free := if reacquired then s.free - 1 else s.free, pendingAtReturn := pend }
 
 /-- one step.  `none` = not a behaviour (only a running task can finish; only a running body can end). -/
 def step (s : State) : Op → Option State
   | .finish i =>
     match s.st[i]?, s.outs[i]? with
     | some .running, some o =>
-      -- the body ends, `async with sema` releases, the semaphore wakes the next waiter
-      let st1 := s.st.set i (.done (resOf o))
-      let p := admit (s.free + 1) st1
-      let s1 := { s with st := p.2, free := p.1 }
+      let s1 := complete s i o
       match s.flavour with
       | .returnExceptions =>
-        -- `return await asyncio.gather(*tasks)` once every task is done, then `__aexit__` re-acquires
-        if allDone p.2 then some { s1 with helper := .returned (p.2.map slotOf), free := p.1 - 1, pendingAtReturn := 0 }
-        else some s1
+        -- `return await asyncio.gather(*tasks)` once every task is done
+        if allDone s1.st then some (returnNow s1) else some s1
       | .raiseFirst =>
         match s.helper, o with
         | .active, .raise e =>
           -- gather propagates the first exception; `WithoutSemaphore.__aexit__` does NOT re-acquire on error; the other
           -- tasks keep running
-          some { s1 with helper := .raised e, pendingAtReturn := nNotDone st1 }
-        | .active, .ret _ =>
-          if allDone p.2 then some { s1 with helper := .returned (p.2.map slotOf), free := p.1 - 1, pendingAtReturn := 0 }
-          else some s1
+          some (raiseNow s1 e (nNotDone s1.st) false)
+        | .active, .ret _ => if allDone s1.st then some (returnNow s1) else some s1
         | _, _ => some s1
       | .raiseCancel =>
         match s.helper, o with
@@ -180,29 +223,23 @@ def step (s : State) : Op → Option State
           -- `finally:` … `for task in tasks: if task.done() and not task.cancelled(): exc = task.exception(); if exc: raise exc
           -- else: task.cancel()`: the loop cancels the unfinished tasks BEFORE the failed one and then re-raises at the
           -- failed task; the tasks after it are not cancelled and `asyncio.wait(tasks)` is not reached
-          let c := cancelBelow i st1
-          let p2 := admit (s.free + 1 + c.1) c.2
-          some { s with st := p2.2, free := p2.1, helper := .raised e, pendingAtReturn := nNotDone st1 }
-        | .active, .ret _ =>
-          if allDone p.2 then some { s1 with helper := .returned (p.2.map slotOf), free := p.1 - 1, pendingAtReturn := 0 }
-          else some s1
+          some (raiseNow (cancelFirst s1 i) e (nNotDone s1.st) false)
+        | .active, .ret _ => if allDone s1.st then some (returnNow s1) else some s1
         | _, _ => some s1
       | .online =>
         match o with
         | .ret _ =>
           -- `del self._pending[id]; if not self._pending: self._done_event.set()`
-          if s.helper = .exiting ∧ allDone p.2 then
-            some { s1 with helper := .returned (p.2.map slotOf), free := p.1 - 1, pendingAtReturn := 0 }
-          else some s1
+          if s.helper = .exiting ∧ allDone s1.st then some (returnNow s1) else some s1
         | .raise e =>
           -- `self._exception = exc; await asyncio.shield(self._shutdown())`: every pending task (this one included) is
           -- cancelled, `self._pending = None`, `self._done_event.set()`
-          let c := cancelAll st1
+          let s2 := { cancelFirst s1 s1.st.length with exc := some e }
           match s.helper with
           | .exiting =>
             -- `__aexit__` wakes after the cancelled tasks have run, re-acquires and raises `self._exception`
-            some { s with st := c.2, free := s.free + 1 + c.1 - 1, exc := some e, helper := .raised e, pendingAtReturn := 0 }
-          | _ => some { s with st := c.2, free := s.free + 1 + c.1, exc := some e }
+            some (raiseNow s2 e 0 true)
+          | _ => some s2
     | _, _ => none
   | .body o =>
     match s.flavour, s.helper with
@@ -210,18 +247,16 @@ def step (s : State) : Op → Option State
       match o, s.exc with
       | .raise e, none =>
         -- `__aexit__(exc_val)`: `self._exception = exc_val; await self._shutdown()` cancels every pending task; the event is
-        -- already set and the permit is free, so `__aexit__` raises WITHOUT yielding to the loop: the cancelled tasks have not
-        -- run yet when the caller sees the exception
-        let c := cancelAll s.st
-        some { s with st := c.2, free := s.free + c.1, exc := some e, helper := .raised e, pendingAtReturn := nNotDone s.st }
+        -- already set and the permit just released is free, so `__aexit__` raises WITHOUT yielding to the loop: the cancelled
+        -- tasks have not run yet when the caller sees the exception
+        some (raiseNow { cancelFirst s s.st.length with exc := some e } e (nNotDone s.st) false)
       | _, some e0 =>
         -- a task failed during the body: the pool is already shut down; a body exception is logged and discarded
-        some { s with helper := .raised e0, pendingAtReturn := 0 }
+        some (raiseNow s e0 0 false)
       | .ret _, none =>
         -- `async with WithoutSemaphore(self._sema): await self._done_event.wait()`
-        let p := admit (s.free + 1) s.st
-        if allDone p.2 then some { s with st := p.2, free := p.1 - 1, helper := .returned (p.2.map slotOf), pendingAtReturn := 0 }
-        else some { s with st := p.2, free := p.1, helper := .exiting }
+        let s1 := releaseOwn s
+        if allDone s1.st then some (returnNow s1) else some { s1 with helper := .exiting }
     | _, _ => none
 
 def runFrom : State → List Op → Option State
@@ -240,19 +275,5 @@ def firstErr (outs : List Outcome) : List Op → Option Nat
     | _ => firstErr outs r
   | .body (.raise e) :: _ => some e
   | .body (.ret _) :: r => firstErr outs r
-
-/-- how the helper was entered -/
-inductive Entry where
-  /-- `bounded_gather2(sema, …)` / `OnlineBoundedGather2(sema)` called by a coroutine that holds one permit of
-  `sema = asyncio.Semaphore(n)` (the convention `WithoutSemaphore` is written for) -/
-  | holdingPermit
-  /-- `bounded_gather(*pfs, parallelism=n)`: `bounded_gather2(asyncio.Semaphore(n), …)` — nobody holds a permit -/
-  | boundedGather
-  deriving DecidableEq, Repr
-
-/-- `sema._value` when the helper is called, for a semaphore created with `n` permits -/
-def valueAtCall (n : Nat) : Entry → Nat
-  | .holdingPermit => n - 1
-  | .boundedGather => n
 
 end HailVerif.Gather
